@@ -17,7 +17,8 @@ def C08_units : List (String × String) := [
   ("sanitize.go/func/*Policy.sanitize/case:html.SelfClosingTagToken", "579a9bca378883dd"),
   ("sanitize.go/func/*Policy.sanitize/case:html.TextToken", "c2658786898b5dd8"),
   ("sanitize.go/func/*Policy.sanitize/around-switch", "cd2e2ace16007f49"),
-  ("sanitize.go/func/isVoidElement", "120c7555bb368525")
+  ("sanitize.go/func/isVoidElement", "120c7555bb368525"),
+  ("sanitize.go/func/normaliseElementName", "2bf67939cdf5b934")
 ]
 
 set_option maxRecDepth 100000 in
